@@ -270,9 +270,9 @@ pub fn prop() -> Prop {
             "differential oracle: deviations shared by all data types cancel; the shuffled family uses the reference evaluator with the open ordering finding K1 attributed",
         ],
         subs: vec![
-            Sub { name: "random-diff", kind: Kind::Random { f: random_diff, quick: 30_000, thorough: 1_600_000, len: 500 } },
-            Sub { name: "random-object-equality", kind: Kind::Random { f: random_object_equality, quick: 8_000, thorough: 300_000, len: 300 } },
-            Sub { name: "random-unsorted", kind: Kind::Random { f: random_unsorted, quick: 20_000, thorough: 1_000_000, len: 500 } },
+            Sub { name: "random-diff", kind: Kind::Random { f: random_diff, quick: 240_000, thorough: 4_800_000, len: 500 } },
+            Sub { name: "random-object-equality", kind: Kind::Random { f: random_object_equality, quick: 64_000, thorough: 1_280_000, len: 300 } },
+            Sub { name: "random-unsorted", kind: Kind::Random { f: random_unsorted, quick: 160_000, thorough: 3_200_000, len: 500 } },
         ],
         direct: Some(direct),
         selftest: Some(crate::rfc::selftest),
